@@ -12,6 +12,22 @@ import itertools
 import numpy as np
 
 
+_SCRATCH = None
+
+
+def _scratch():
+    """One scratch directory per process for the cache files of the scenarios, removed at exit."""
+    global _SCRATCH
+    if _SCRATCH is None:
+        import atexit
+        import shutil
+        import tempfile
+
+        _SCRATCH = tempfile.mkdtemp(prefix="rt_c05_")
+        atexit.register(shutil.rmtree, _SCRATCH, True)
+    return _SCRATCH
+
+
 def _mk(kind):
     if kind == "SimpleCache":
         from gemseo.caches.simple_cache import SimpleCache
@@ -23,7 +39,7 @@ def _mk(kind):
 
         from gemseo.caches.hdf5_cache import HDF5Cache
 
-        return HDF5Cache(hdf_file_path=Path(tempfile.mkdtemp(prefix="rt_c05_")) / "cache.h5", hdf_node_path="node")
+        return HDF5Cache(hdf_file_path=Path(tempfile.mkdtemp(dir=_scratch())) / "cache.h5", hdf_node_path="node")
     from gemseo.caches.memory_full_cache import MemoryFullCache
 
     return MemoryFullCache(is_memory_shared=(kind == "MemoryFullCache[shared]"))
